@@ -269,6 +269,67 @@ def scen_e2e(ch, params, out):
         ld.close()
 
 
+CONTEXT_SPECIALS = [[], ["a\u2028b"], ["\u0085", "p\u2029q"], ["tab\there", "x\x1cy"]]
+
+
+def scen_context(ch, params, out):
+    """the literal field in context: samples without the key (or with null) between the strings, the overflowing string first or
+    last, the field in the root or in a child class (flat / nested layout), strings with Unicode line separators"""
+    import typing
+    from vflib import pipeline
+    counts = params.get("counts", [1, 2, 3, 15, 16])
+    limits = params.get("limits", [0, 10, 16, 17])
+    c, m = ch.choose("count,max_literals", [(c, m) for c in counts for m in limits], shard=True)
+    gap = ch.choose("gap_sample", ["none", "absent", "null"])
+    gap_pos = ch.choose("gap_position", ["first", "second", "before_last"]) if gap != "none" else None
+    long_pos = ch.choose("long_string", ["none", "first", "last"])
+    specials = ch.choose("special_strings", CONTEXT_SPECIALS)
+    placement = ch.choose("placement", ["root_flat", "child_flat", "child_nested"])
+    fw = ch.choose("framework", params.get("frameworks", ["pydantic", "dataclasses"]))
+    strs = [f"v{i:02d}" for i in range(c)]
+    for i, sp in enumerate(specials[:max(c - 1, 0)]):
+        strs[-1 - i] = sp
+    if long_pos == "first":
+        strs[0] = "L" * 20
+    elif long_pos == "last":
+        strs[-1] = "L" * 20
+    seq = [{"a": x} for x in strs]
+    if gap != "none":
+        g = {} if gap == "absent" else {"a": None}
+        seq.insert({"first": 0, "second": 1, "before_last": len(seq) - 1}[gap_pos], g)
+    if placement != "root_flat":
+        seq = [{"child": dict(x, n=1), "id": 1} for x in seq]
+    layout = "nested" if placement == "child_nested" else "flat"
+    out.info = {"count": c, "max_literals": m, "gap": [gap, gap_pos], "long": long_pos, "specials": specials, "placement": placement, "framework": fw}
+    ctx = lambda: f"{c} strings {strs[:3]}..{strs[-1:]} gap={gap}@{gap_pos} long={long_pos} max_literals={m} {placement} {fw}"
+    try:
+        gen, reg, _ = pipeline.infer({"Root": seq})
+        text = pipeline.emit(reg, fw, layout, max_literals=m)
+        ld = pipeline.load_module(text)
+    except Exception as e:
+        out.fail("pipeline_raises", f"{type(e).__name__}: {e} ({ctx()})", f"pipeline_raises:{type(e).__name__}")
+        return
+    try:
+        want = "Root" if placement == "root_flat" else "Child"
+        cls = next((k for q, k in ld.classes.items() if q.split(".")[-1] == want), None)
+        if not out.check(cls is not None, "class_missing", lambda: f"no class {want} ({ctx()})\n{text}", "class_missing"):
+            return
+        ann = pipeline.resolve_annotation(pipeline.own_annotations(cls)["a"], ld, cls)
+        if typing.get_origin(ann) is typing.Union:
+            rest = [x for x in typing.get_args(ann) if x is not type(None)]
+            ann = rest[0] if len(rest) == 1 else ann
+        expect_literal = all(len(x) < 20 for x in strs) and c <= 15 and c < m and m != 0
+        if expect_literal:
+            if out.check(typing.get_origin(ann) is typing.Literal, "literal_missing", lambda: f"expected Literal of {c} strings, annotation is {ann} ({ctx()})", "literal_missing"):
+                got = set(typing.get_args(ann))
+                out.check(got == set(strs), "literal_values_differ",
+                          lambda: f"observed {sorted(strs)!r}, annotation lists {sorted(map(str, got))!r} ({ctx()})\n{text}", "literal_values_differ")
+        else:
+            out.check(ann is str, "literal_beyond_limits", lambda: f"expected str, annotation is {ann} ({ctx()})", "literal_beyond_limits")
+    finally:
+        ld.close()
+
+
 def scen_two_generators(ch, params, out):
     """the configured maximum belongs to ONE generator object: constructing another generator (other limit, same or other
     framework) between construction and rendering must not change what the first one emits"""
@@ -345,11 +406,14 @@ def parts(tier):
                 CH("e2e", "vflib.props.c10:scen_e2e", {"counts": [1, 3, 9, 10, 11, 15, 16, 17], "limits": [0, 1, 4, 10, 11, 16, 17]},
                    shards=16, timeout=170, path_timeout=30),
                 CH("two_generators", "vflib.props.c10:scen_two_generators", {}, shards=16, timeout=170, path_timeout=30),
+                CH("literal_field_in_context", "vflib.props.c10:scen_context", {}, shards=16, timeout=170, path_timeout=30),
                 CH("cli_limit_option", "vflib.props.c10:scen_cli_limit", {}, shards=9, timeout=170, path_timeout=30)]
     return [SMT("limits", "vflib.props.c10:kernel_limits", {}, timeout=400),
             SMT("escaping", "vflib.props.c10:kernel_escape", {}, timeout=200, mode="SMT-S"),
             CH("e2e", "vflib.props.c10:scen_e2e", {"counts": list(range(1, 18)), "limits": list(range(0, 18))}, shards=16, timeout=400, path_timeout=30),
             CH("two_generators", "vflib.props.c10:scen_two_generators", {}, shards=16, timeout=400, path_timeout=30),
+            CH("literal_field_in_context", "vflib.props.c10:scen_context", {"counts": [1, 2, 3, 4, 14, 15, 16, 17], "limits": [0, 1, 3, 10, 15, 16, 17],
+                                                                            "frameworks": ["pydantic", "sqlmodel", "dataclasses", "base"]}, shards=16, timeout=400, path_timeout=30),
             CH("cli_limit_option", "vflib.props.c10:scen_cli_limit", {}, shards=9, timeout=400, path_timeout=30)]
 
 
